@@ -81,9 +81,9 @@ func targetOfBinary(c *lib.Child, mangle, httpValidated bool, cfg string) (*targ
 		if err == nil {
 			return t, nil
 		}
-		if time.Now().After(deadline) {
+		if time.Now().After(deadline) || c.Exited() {
 			_ = conn.Close()
-			return nil, fmt.Errorf("gRPC of the binary did not come up: %v", err)
+			return nil, fmt.Errorf("gRPC of the binary did not come up (exited=%v): %v", c.Exited(), err)
 		}
 		time.Sleep(10 * time.Millisecond)
 	}
